@@ -33,6 +33,31 @@ def record(co, opc, ident):
     return r
 
 
+ROW = re.compile(r"^  (\d+) to (-?\d+) -> (\d+) \[(\d+)\]( lasti)?$")
+
+
+def listing_sections(path):
+    """the 'ExceptionTable:' sections of the classic listing of a file, each as a list of rows"""
+    import io
+    from xdis.disasm import disassemble_file
+    buf = io.StringIO()
+    with xd.quiet():
+        with xd.forced_portable():
+            disassemble_file(path, buf)
+    sections, cur = [], None
+    for line in buf.getvalue().split("\n"):
+        if line.startswith("ExceptionTable:"):
+            cur = []
+            sections.append(cur)
+            continue
+        m = ROW.match(line) if cur is not None else None
+        if m:
+            cur.append([int(m.group(1)), int(m.group(2)), int(m.group(3)), int(m.group(4)), 1 if m.group(5) else 0])
+        else:
+            cur = None
+    return sections
+
+
 def make(vt, tab, opc):
     nop = opc.opmap["NOP"]
     return to_portable(
@@ -57,14 +82,29 @@ def main():
                     continue
                 if tuple(opc.version_tuple[:2]) < (3, 11):
                     continue
+                try:
+                    sections = listing_sections(path)
+                except Exception as e:
+                    sections = None
+                    fh.write(json.dumps({"id": path + "#listing", "error": "%s: %s" % (type(e).__name__, e)}) + "\n")
                 for p, c in walk(co):
                     ident = "%s#%s" % (path, p)
                     try:
                         with xd.quiet():
                             r = record(c, opc, ident)
+                        if sections is not None and r["rows"]:
+                            # the section of the listing that belongs to this code object: the first unclaimed one with these rows
+                            r["has"].append("lrows")
+                            r["lrows"] = []
+                            for n_, sec in enumerate(sections):
+                                if sec == r["rows"]:
+                                    r["lrows"] = sections.pop(n_)
+                                    break
                     except Exception as e:
                         r = {"id": ident, "error": "%s: %s" % (type(e).__name__, e)}
                     fh.write(json.dumps(r) + "\n")
+                if sections:
+                    fh.write(json.dumps({"id": path + "#listing", "error": "listing has %d ExceptionTable section(s) that belong to no code object" % len(sections)}) + "\n")
         else:
             for line in open(inp):
                 b = json.loads(line)
